@@ -8,6 +8,12 @@
 #endif
 #define INV (-1)
 typedef struct TopologyKernel TK;
+/* storage of a vstd container: heap block (pointer mode) or the inline array (VSTD_INLINE mode) */
+#ifdef VSTD_INLINE
+#define VALLOC(v, T, n) do { __CPROVER_assert(sizeof((v)->data) / sizeof((v)->data[0]) >= (n), "vstd-capacity: inline capacity covers the loop bound"); (v)->cap = sizeof((v)->data) / sizeof((v)->data[0]); } while (0)
+#else
+#define VALLOC(v, T, n) do { (v)->data = malloc(sizeof(T) * ((n) ? (n) : 1)); (v)->cap = (n); } while (0)
+#endif
 
 #define EFROM(m, e) ((m)->edges_.data[e].fromVertex_.idx_)
 #define ETO(m, e)   ((m)->edges_.data[e].toVertex_.idx_)
@@ -166,8 +172,8 @@ static inline _Bool wf(const TK *m) {
  * sizes are nondet within the PRE caps PV/PE/PF/PC/PFV/PCV/POUT/PINC (<= loop bounds).
  * Mode flags: harness constants CFG_V CFG_E CFG_F CFG_DEFERRED CFG_FAST. */
 static inline unsigned long sym_size(unsigned long cap) { unsigned long n = nondet_ulong(); __CPROVER_assume(n <= cap); return n; }
-static inline void sym_vec_int(struct vec_int *v, unsigned long n, unsigned long cap) { v->data = malloc(sizeof(int) * (cap ? cap : 1)); v->size = n; v->cap = cap; }
-static inline void sym_vec_bool(struct vec_bool *v, unsigned long n, unsigned long cap) { v->data = malloc(sizeof(_Bool) * (cap ? cap : 1)); v->size = n; v->cap = cap;
+static inline void sym_vec_int(struct vec_int *v, unsigned long n, unsigned long cap) { VALLOC(v, int, cap); v->size = n; }
+static inline void sym_vec_bool(struct vec_bool *v, unsigned long n, unsigned long cap) { VALLOC(v, _Bool, cap); v->size = n;
   for (unsigned long i = 0; i < cap; i++) v->data[i] = nondet_bool(); }
 
 static inline void sym_mesh(TK *m) {
@@ -175,34 +181,34 @@ static inline void sym_mesh(TK *m) {
   m->n_vertices_ = nv;
   m->v_bottom_up_ = CFG_V; m->e_bottom_up_ = CFG_E; m->f_bottom_up_ = CFG_F;
   m->deferred_deletion_ = CFG_DEFERRED; m->fast_deletion_ = CFG_FAST;
-  m->edges_.data = malloc(sizeof(struct OpenVolumeMeshEdge) * LE); m->edges_.size = ne; m->edges_.cap = LE;
-  m->faces_.data = malloc(sizeof(struct OpenVolumeMeshFace) * LF); m->faces_.size = nf; m->faces_.cap = LF;
+  VALLOC(&m->edges_, struct OpenVolumeMeshEdge, LE); m->edges_.size = ne;
+  VALLOC(&m->faces_, struct OpenVolumeMeshFace, LF); m->faces_.size = nf;
   for (unsigned long f = 0; f < LF; f++) {
     struct vec_HEH *l = &m->faces_.data[f].halfedges_;
-    l->data = malloc(sizeof(struct HEH) * LFV); l->cap = LFV; l->size = sym_size(PFV);
+    VALLOC(l, struct HEH, LFV); l->size = sym_size(PFV);
   }
-  m->cells_.data = malloc(sizeof(struct OpenVolumeMeshCell) * LC); m->cells_.size = nc; m->cells_.cap = LC;
+  VALLOC(&m->cells_, struct OpenVolumeMeshCell, LC); m->cells_.size = nc;
   for (unsigned long c = 0; c < LC; c++) {
     struct vec_HFH *l = &m->cells_.data[c].halffaces_;
-    l->data = malloc(sizeof(struct HFH) * LCV); l->cap = LCV; l->size = sym_size(PCV);
+    VALLOC(l, struct HFH, LCV); l->size = sym_size(PCV);
   }
   sym_vec_bool(&m->vertex_deleted_, nv, LV); sym_vec_bool(&m->edge_deleted_, ne, LE);
   sym_vec_bool(&m->face_deleted_, nf, LF); sym_vec_bool(&m->cell_deleted_, nc, LC);
   m->n_deleted_vertices_ = nondet_ulong(); m->n_deleted_edges_ = nondet_ulong();
   m->n_deleted_faces_ = nondet_ulong(); m->n_deleted_cells_ = nondet_ulong();
-  m->outgoing_hes_per_vertex_.data = malloc(sizeof(struct vec_HEH) * LV); m->outgoing_hes_per_vertex_.cap = LV;
+  VALLOC(&m->outgoing_hes_per_vertex_, struct vec_HEH, LV);
   m->outgoing_hes_per_vertex_.size = CFG_V ? nv : 0;
   for (unsigned long v = 0; v < LV; v++) {
     struct vec_HEH *l = &m->outgoing_hes_per_vertex_.data[v];
-    l->data = malloc(sizeof(struct HEH) * LOUT); l->cap = LOUT; l->size = sym_size(POUT);
+    VALLOC(l, struct HEH, LOUT); l->size = sym_size(POUT);
   }
-  m->incident_hfs_per_he_.data = malloc(sizeof(struct vec_HFH) * 2 * LE); m->incident_hfs_per_he_.cap = 2 * LE;
+  VALLOC(&m->incident_hfs_per_he_, struct vec_HFH, 2 * LE);
   m->incident_hfs_per_he_.size = CFG_E ? 2 * ne : 0;
   for (unsigned long h = 0; h < 2 * LE; h++) {
     struct vec_HFH *l = &m->incident_hfs_per_he_.data[h];
-    l->data = malloc(sizeof(struct HFH) * LINC); l->cap = LINC; l->size = sym_size(PINC);
+    VALLOC(l, struct HFH, LINC); l->size = sym_size(PINC);
   }
-  m->incident_cell_per_hf_.data = malloc(sizeof(struct CH) * 2 * LF); m->incident_cell_per_hf_.cap = 2 * LF;
+  VALLOC(&m->incident_cell_per_hf_, struct CH, 2 * LF);
   m->incident_cell_per_hf_.size = CFG_F ? 2 * nf : 0;
   sym_vec_int(&m->ghost_v, nv, LV); sym_vec_int(&m->ghost_e, ne, LE); sym_vec_int(&m->ghost_he, 2 * ne, 2 * LE);
   sym_vec_int(&m->ghost_f, nf, LF); sym_vec_int(&m->ghost_hf, 2 * nf, 2 * LF); sym_vec_int(&m->ghost_c, nc, LC);
@@ -268,35 +274,35 @@ static inline void unwitness(const int *w, TK *m, int *args) {
   m->v_bottom_up_ = w[p++]; m->e_bottom_up_ = w[p++]; m->f_bottom_up_ = w[p++]; m->deferred_deletion_ = w[p++]; m->fast_deletion_ = w[p++];
   m->n_deleted_vertices_ = (unsigned long)w[p++]; m->n_deleted_edges_ = (unsigned long)w[p++]; m->n_deleted_faces_ = (unsigned long)w[p++]; m->n_deleted_cells_ = (unsigned long)w[p++];
   args[0] = w[p++]; args[1] = w[p++]; args[2] = w[p++];
-  m->edges_.data = malloc(sizeof(struct OpenVolumeMeshEdge) * LE); m->edges_.size = ne; m->edges_.cap = LE;
-  m->edge_deleted_.data = malloc(LE + 1); m->edge_deleted_.size = ne; m->edge_deleted_.cap = LE;
+  VALLOC(&m->edges_, struct OpenVolumeMeshEdge, LE); m->edges_.size = ne;
+  VALLOC(&m->edge_deleted_, _Bool, LE); m->edge_deleted_.size = ne;
   for (unsigned long e = 0; e < LE; e++) { m->edges_.data[e].fromVertex_.idx_ = w[p++]; m->edges_.data[e].toVertex_.idx_ = w[p++]; m->edge_deleted_.data[e] = w[p++] == 1; }
-  m->vertex_deleted_.data = malloc(LV + 1); m->vertex_deleted_.size = nv; m->vertex_deleted_.cap = LV;
-  m->ghost_v.data = malloc(sizeof(int) * (LV + 1)); m->ghost_v.size = nv; m->ghost_v.cap = LV;
+  VALLOC(&m->vertex_deleted_, _Bool, LV); m->vertex_deleted_.size = nv;
+  VALLOC(&m->ghost_v, int, LV); m->ghost_v.size = nv;
   for (unsigned long v = 0; v < LV; v++) { m->vertex_deleted_.data[v] = w[p++] == 1; m->ghost_v.data[v] = w[p++]; }
-  m->faces_.data = malloc(sizeof(struct OpenVolumeMeshFace) * LF); m->faces_.size = nf; m->faces_.cap = LF;
-  m->face_deleted_.data = malloc(LF + 1); m->face_deleted_.size = nf; m->face_deleted_.cap = LF;
+  VALLOC(&m->faces_, struct OpenVolumeMeshFace, LF); m->faces_.size = nf;
+  VALLOC(&m->face_deleted_, _Bool, LF); m->face_deleted_.size = nf;
   for (unsigned long f = 0; f < LF; f++) { m->face_deleted_.data[f] = w[p++] == 1; int n = w[p++];
-    struct vec_HEH *l = &m->faces_.data[f].halfedges_; l->data = malloc(sizeof(struct HEH) * LFV); l->cap = LFV; l->size = n < 0 ? 0 : (unsigned long)n;
+    struct vec_HEH *l = &m->faces_.data[f].halfedges_; VALLOC(l, struct HEH, LFV); l->size = n < 0 ? 0 : (unsigned long)n;
     for (unsigned long k = 0; k < LFV; k++) l->data[k].idx_ = w[p++]; }
-  m->cells_.data = malloc(sizeof(struct OpenVolumeMeshCell) * LC); m->cells_.size = nc; m->cells_.cap = LC;
-  m->cell_deleted_.data = malloc(LC + 1); m->cell_deleted_.size = nc; m->cell_deleted_.cap = LC;
+  VALLOC(&m->cells_, struct OpenVolumeMeshCell, LC); m->cells_.size = nc;
+  VALLOC(&m->cell_deleted_, _Bool, LC); m->cell_deleted_.size = nc;
   for (unsigned long c = 0; c < LC; c++) { m->cell_deleted_.data[c] = w[p++] == 1; int n = w[p++];
-    struct vec_HFH *l = &m->cells_.data[c].halffaces_; l->data = malloc(sizeof(struct HFH) * LCV); l->cap = LCV; l->size = n < 0 ? 0 : (unsigned long)n;
+    struct vec_HFH *l = &m->cells_.data[c].halffaces_; VALLOC(l, struct HFH, LCV); l->size = n < 0 ? 0 : (unsigned long)n;
     for (unsigned long k = 0; k < LCV; k++) l->data[k].idx_ = w[p++]; }
-  m->outgoing_hes_per_vertex_.data = malloc(sizeof(struct vec_HEH) * LV); m->outgoing_hes_per_vertex_.cap = LV; m->outgoing_hes_per_vertex_.size = (unsigned long)w[p++];
+  VALLOC(&m->outgoing_hes_per_vertex_, struct vec_HEH, LV); m->outgoing_hes_per_vertex_.size = (unsigned long)w[p++];
   for (unsigned long v = 0; v < LV; v++) { int n = w[p++]; struct vec_HEH *l = &m->outgoing_hes_per_vertex_.data[v];
-    l->data = malloc(sizeof(struct HEH) * LOUT); l->cap = LOUT; l->size = n < 0 ? 0 : (unsigned long)n; for (unsigned long k = 0; k < LOUT; k++) l->data[k].idx_ = w[p++]; }
-  m->incident_hfs_per_he_.data = malloc(sizeof(struct vec_HFH) * 2 * LE); m->incident_hfs_per_he_.cap = 2 * LE; m->incident_hfs_per_he_.size = (unsigned long)w[p++];
+    VALLOC(l, struct HEH, LOUT); l->size = n < 0 ? 0 : (unsigned long)n; for (unsigned long k = 0; k < LOUT; k++) l->data[k].idx_ = w[p++]; }
+  VALLOC(&m->incident_hfs_per_he_, struct vec_HFH, 2 * LE); m->incident_hfs_per_he_.size = (unsigned long)w[p++];
   for (unsigned long h = 0; h < 2 * LE; h++) { int n = w[p++]; struct vec_HFH *l = &m->incident_hfs_per_he_.data[h];
-    l->data = malloc(sizeof(struct HFH) * LINC); l->cap = LINC; l->size = n < 0 ? 0 : (unsigned long)n; for (unsigned long k = 0; k < LINC; k++) l->data[k].idx_ = w[p++]; }
-  m->incident_cell_per_hf_.data = malloc(sizeof(struct CH) * 2 * LF); m->incident_cell_per_hf_.cap = 2 * LF; m->incident_cell_per_hf_.size = (unsigned long)w[p++];
+    VALLOC(l, struct HFH, LINC); l->size = n < 0 ? 0 : (unsigned long)n; for (unsigned long k = 0; k < LINC; k++) l->data[k].idx_ = w[p++]; }
+  VALLOC(&m->incident_cell_per_hf_, struct CH, 2 * LF); m->incident_cell_per_hf_.size = (unsigned long)w[p++];
   for (unsigned long h = 0; h < 2 * LF; h++) m->incident_cell_per_hf_.data[h].idx_ = w[p++];
-  m->ghost_e.data = malloc(sizeof(int) * (LE + 1)); m->ghost_e.size = ne; m->ghost_e.cap = LE; for (unsigned long e = 0; e < LE; e++) m->ghost_e.data[e] = w[p++];
-  m->ghost_he.data = malloc(sizeof(int) * (2 * LE + 1)); m->ghost_he.size = 2 * ne; m->ghost_he.cap = 2 * LE; for (unsigned long e = 0; e < 2 * LE; e++) m->ghost_he.data[e] = w[p++];
-  m->ghost_f.data = malloc(sizeof(int) * (LF + 1)); m->ghost_f.size = nf; m->ghost_f.cap = LF; for (unsigned long f = 0; f < LF; f++) m->ghost_f.data[f] = w[p++];
-  m->ghost_hf.data = malloc(sizeof(int) * (2 * LF + 1)); m->ghost_hf.size = 2 * nf; m->ghost_hf.cap = 2 * LF; for (unsigned long f = 0; f < 2 * LF; f++) m->ghost_hf.data[f] = w[p++];
-  m->ghost_c.data = malloc(sizeof(int) * (LC + 1)); m->ghost_c.size = nc; m->ghost_c.cap = LC; for (unsigned long c = 0; c < LC; c++) m->ghost_c.data[c] = w[p++];
+  VALLOC(&m->ghost_e, int, LE); m->ghost_e.size = ne; for (unsigned long e = 0; e < LE; e++) m->ghost_e.data[e] = w[p++];
+  VALLOC(&m->ghost_he, int, 2 * LE); m->ghost_he.size = 2 * ne; for (unsigned long e = 0; e < 2 * LE; e++) m->ghost_he.data[e] = w[p++];
+  VALLOC(&m->ghost_f, int, LF); m->ghost_f.size = nf; for (unsigned long f = 0; f < LF; f++) m->ghost_f.data[f] = w[p++];
+  VALLOC(&m->ghost_hf, int, 2 * LF); m->ghost_hf.size = 2 * nf; for (unsigned long f = 0; f < 2 * LF; f++) m->ghost_hf.data[f] = w[p++];
+  VALLOC(&m->ghost_c, int, LC); m->ghost_c.size = nc; for (unsigned long c = 0; c < LC; c++) m->ghost_c.data[c] = w[p++];
   args[3] = w[p++];
 }
 
